@@ -11,6 +11,7 @@ package sched
 import (
 	"fmt"
 	"sync"
+	"time"
 
 	"pault.ag/go/debian/verifhook"
 
@@ -216,10 +217,18 @@ func judge(scen string, p Program, choices []int, want, got [][]string, dead boo
 
 // Explore registers one scenario that explores every program under every schedule with <= 2 preemptions.
 func Explore(r *mc.Run, scen string, progs []Program) {
+	started := time.Now()
+	maxExecs, maxWall := int64(200000), 20*time.Minute
+	if r.Quick() {
+		maxExecs, maxWall = 20000, 2*time.Minute
+	}
+	if r.HasViolation() {
+		maxExecs, maxWall = 2000, 20*time.Second
+	}
 	r.Scenario(scen, map[string]interface{}{"thread_programs": len(progs), "preemption_bound": 2, "scheduling_points": "uses of package-level variables of the module, lock operations, loop iterations after the first shared access"}, len(progs), func(i int, st *mc.Stats) bool {
 		p := progs[i]
 		want := sequential(p.Threads)
-		stop := false
+		stop, cut := false, false
 		maxPoints := 0
 		execs, div := mc.Explore(2, st, func(x *mc.X) {
 			if stop {
@@ -241,8 +250,12 @@ func Explore(r *mc.Run, scen string, progs []Program) {
 			} else {
 				st.Class("equals-sequential")
 			}
-			if st.Evals > 200000 {
-				stop = true
+			// a budget, not an oracle: on a library that keeps no state between calls every program has one execution.
+			// Once a change makes every loop iteration a scheduling point the schedules of one program run into the
+			// hundreds of thousands; the scenario then stops, says so (exhaustive=false) and leaves the verdict to
+			// what was explored.
+			if st.Evals > maxExecs || time.Since(started) > maxWall {
+				stop, cut = true, true
 			}
 		})
 		st.States += execs
@@ -250,6 +263,10 @@ func Explore(r *mc.Run, scen string, progs []Program) {
 			st.Class("scheduling-points<=0")
 		} else {
 			st.Class("scheduling-points>0")
+		}
+		if cut {
+			st.Class("budget-reached:exploration-incomplete")
+			return false
 		}
 		if div != "" {
 			st.Class("state-persists-across-executions:exploration-incomplete")
